@@ -927,7 +927,8 @@ def _fresh_result(case, pr, out):
 
 
 SUBS = {
-    'sched': Sub('sched', strat, run, quick=192, thorough=9600, quick_shards=16),
+    'sched': Sub('sched', strat, run, quick=168, thorough=9600, quick_shards=16),
     'bulk': Sub('bulk', strat_bulk, run_bulk, quick=128, thorough=4800, quick_shards=16),
     'fresh': Sub('fresh', strat_fresh, run_fresh, quick=1, thorough=2, quick_shards=1),
 }
+SUBS['fresh'].opt_pass = False
